@@ -177,6 +177,11 @@ class NodePathParser(object):
         elif self.current_token != '':
             raise unexpected_char_error(self.current_token[0], self.pos - len(self.current_token))
 
+        else:
+            # e.g. '@', '@[', '@[1]', '/001001[', '/001001[1:': the subset selector or
+            # the slice is not terminated, or no path component follows the selector
+            raise PathExprParsingError('unexpected end of path expression')
+
         return self.node_path
 
     def handle_left_bracket(self):
